@@ -675,6 +675,19 @@ Flush(t) ==
      ELSE a' = g /\ cph' = "drain" /\ ci' = 1 /\ cown' = t /\ UNCHANGED <<batch, active>>
   /\ UNCHANGED <<tst, reg, ring, pend, cur, inop, stack, hs, spans, lsets, futs, pushed, nid, nops, natt, ncyc, pc, quiet>>
 
+\* set_reporter() called again (GlobalCollector::start): a fresh collector object - whatever the old one kept per
+\* trace is gone - over the same registry of receivers; the command queues and what the threads hold are untouched.
+\* In the default configuration nothing recorded afterwards may be lost by that (what arrives for a trace the new
+\* collector never saw started takes the late path).  Spends one unit of the flush budget.
+Reinstall ==
+  /\ "reinstall" \in Menu /\ Enabled /\ Ready
+  /\ cph = "idle" /\ nfl < MaxFlush
+  /\ nfl' = nfl + 1
+  /\ active' = A!EmptyFn
+  /\ hist' = Append(hist, [ev |-> "reinstall"])
+  /\ a' = A!AbsStep(a, [ev |-> "reinstall"])
+  /\ UNCHANGED <<tst, reg, ring, pend, cur, inop, stack, hs, spans, lsets, futs, pushed, cph, ci, batch, cown, nid, nops, natt, ncyc, pc, quiet>>
+
 GhostDrain(g, t) == IF TrackCut THEN A!AbsStep(g, [ev |-> "drain", t |-> t]) ELSE g
 
 Col ==
@@ -878,6 +891,7 @@ Next ==
   \/ \E t \in Threads : M("spawn") /\ ~ProgDone /\ Spawn(t)
   \/ \E t \in Threads : M("flush") /\ CanStart(t) /\ ~ProgDone /\ Flush(t)
   \/ (~AllQuiet /\ Cyc)
+  \/ (~AllQuiet /\ ~ProgDone /\ Reinstall)
   \/ Col
   \/ QuietCycle
   \/ GiveUp
